@@ -133,8 +133,51 @@ def run(tier):
                       "tot": [c["tot"] for c in sc["calls"]], "maxit": [c["maxit"] for c in sc["calls"]],
                       "ops": [c["op"] for c in sc["calls"]]}, cn, [D.describe(r) for r in raws])
         rep.evaluations += len(raws)
+    # the older public driver solve_legacy (outside the listed properties): scripts enumerated on the legacy instance of
+    # Driver.tla, replayed, judged against its own contract (clauses L_xxx, reported as DRIFT) and trace-validated
+    gen3 = os.path.join(wd, "gen_legacy.ndjson")
+    res3 = core.tlc("MC_Driver", "MC_Driver_legacy.cfg", workers=1, env={"GEN_FILE": gen3}, timeout=3000)
+    core.tlc_must_pass(res3, "MC_Driver legacy instance")
+    rep.add_tlc("MC_Driver/legacy", res3)
+    ltraces = []
+    nleg = 0
+    for k, sc in enumerate(core.read_ndjson(gen3)):
+        classes = D.KIND_CLASSES[sc["kind"]]
+        for cn in (classes if tier == "thorough" else [classes[k % len(classes)]]):
+            raws, rels, trace = c08.run_script(D, cn, sc, variant=k)
+            rid += 1
+            nleg += 1
+            calls = D.project(raws, rid)
+            recs.append({"id": rid, "kind": "family", "calls": calls, "rels": rels})
+            meta[rid] = ({"kind": sc["kind"], "prof": sc["prof"], "t0": sc["t0"], "tsave": [c["tsave"] for c in sc["calls"]],
+                          "tot": [c["tot"] for c in sc["calls"]], "maxit": [c["maxit"] for c in sc["calls"]],
+                          "ops": [c["op"] for c in sc["calls"]]}, cn, [D.describe(r) for r in raws])
+            if trace is not None:
+                trace["id"] = rid
+                ltraces.append(trace)
+            rep.evaluations += len(raws)
+            # the specification's own outcome of each legacy call (exact-time integrators)
+            if cn in ("explicit", "forwardeuler", "rk2", "rk2_heun", "implicit", "backwardeuler", "trapezoidal", "cranknicolson", "gear"):
+                for c, raw in zip(sc["calls"], raws):
+                    got = (raw["nit"], raw["tfin"] * D.UNIT, [t * D.UNIT for (t, _, _) in raw["res"]])
+                    exp = (c["nit"], float(c["tfin"]), [float(t) for t in c["rest"]])
+                    if got != exp and len(rep.drift) < 10:
+                        rep.drift.append("legacy cls=%s call=%s code=%s spec=%s" % (cn, json.dumps(
+                            {x: c[x] for x in ("op", "tsave", "cfl")}), got, exp))
+    rep.extra["legacy_scripts_replayed"] = nleg
+    if ltraces:
+        acc, rej, tres = driver_trace.validate(ltraces, wd, name="legacy_trace")
+        rep.add_tlc("Trace_Driver/legacy", tres, counts_as_model=False)
+        rep.extra["legacy_event_traces_validated"] = len(ltraces)
+        rep.extra["legacy_event_traces_accepted"] = len(acc)
+        rep.traces += len(ltraces)
+        for tid in sorted(rej)[:5]:
+            rep.drift.append("legacy event trace %d is not a behaviour of Driver.tla: cls=%s %s" % (tid, meta[tid][1], json.dumps(meta[tid][0])[:200]))
     rep.extra["replay_wall_s"] = round(time.time() - t_start, 1)
-    judge(rep, recs, meta, wd, D)
+    bad = judge(rep, recs, meta, wd, D)
+    for b in bad:
+        if b["clause"].startswith("L_") and len(rep.drift) < 20:
+            rep.drift.append("solve_legacy: clause %s fails for cls=%s %s" % (b["clause"], meta[b["id"]][1], json.dumps(meta[b["id"]][0])[:200]))
     return rep.finish()
 
 
